@@ -31,3 +31,9 @@ Definition entry_callback_store (c : acfg) (tokens_ok : bool) (jti : N) (r : cbr
 (* the jti draws of n back-channel requests in the order their client authentication is built (0 = no assertion: client secret) *)
 Definition entry_backchannel_jtis (c : acfg) (n : N) : list N :=
   map (fun p => match assertion_of p with Some j => j | None => 0 end) (back_channel_auths c 1 (N.to_nat n)).
+
+(* one operation of a process history (the driver threads the counter: the fold is Model.Auth.hist_run) *)
+Definition entry_hist_step (c : acfg) (op : hop) (rnd : N) : hstep_out := hist_step c op rnd.
+
+Definition dkind_code (k : dkind) : N :=
+  match k with DNonce => 0 | DState => 1 | DVerifier => 2 | DLogoutState => 3 | DSessionId => 4 | DDataKey => 5 end.
